@@ -45,6 +45,46 @@ def effects_outside_guard(n, guarded=False, out=None):
     return out
 
 
+def unguarded_effects(f, corecall, variant):
+    """effects (return from the loop, store to a user variable other than `skip`, push/insert) in blocks that are only reached with
+    the core outcome `variant`, and where the canonical fact skip.0 == 0 does not hold; None if the variant edge is not found"""
+    from ..mir import rel_fact
+    found = False
+    out = []
+    for b in sorted(f.live_blocks):
+        if f.is_cleanup(b):
+            continue
+        facts = f.facts_at(b)
+        in_arm = False
+        zero = False
+        for u, v, (d, val) in facts:
+            sd = strip(d)
+            if sd[0] == "discr" and isinstance(val, tuple) and val[0] == "variant" and val[1] == variant \
+                    and contains(sd, lambda x: x[0] == "call" and str(x[1]).endswith("::" + corecall)):
+                in_arm = True
+            r = rel_fact(d, val)
+            if r and r[0] == "Eq" and r[2][:2] == ("const", 0) and contains(r[1], lambda x: x[0] == "var" and f.varnames.get(x[1]) == "skip"):
+                zero = True
+        if not in_arm:
+            continue
+        found = True
+        if zero:
+            continue
+        for s in f.stmts(b):
+            if s[0] != "a":
+                continue
+            tgt = s[1][0]
+            if s[1] == [0]:
+                out.append("return")
+            elif len(s[1]) == 1 and f.varnames.get(tgt) and f.varnames.get(tgt) != "skip" and len(f.defs.get(tgt, [])) > 1 \
+                    and s[2][0] == "use" and s[2][1][0] == "c":
+                out.append("%s = .." % f.varnames.get(tgt))
+        t = f.term(b)
+        if isinstance(t, dict) and t["k"] == "call" and (t.get("fn") or "").endswith(("::push", "::insert")):
+            out.append("push")
+    return out if found else None
+
+
 def run(prog):
     obs = []
     for wname, corecall, positives in WALKERS:
@@ -114,20 +154,20 @@ def check_walker(prog, wname, corecall, positives):
                                "would be forgotten (sibling walkers keep the maximum)"))
         elif v in positives:
             seen_pos.add(v)
-            eff = effects_outside_guard(arm[2])
-            if arm[1] is not None:
-                pass
-            key = "%s:guard:%s" % (wname, v)
-            # arms with several patterns of the same variant (e.g. Final with/without guard) get an ordinal
-            if any(o.key.endswith(key) for o in obs):
-                key += "#2"
-            if eff:
-                obs.append(bad(RULE, key, st, "the %s arm acts (%s) outside `if skip.0 == 0`: a layer masked by objectRemoveKey would be visible" % (v, ",".join(eff))))
-            else:
-                obs.append(ok(RULE, key, st, "%s is accepted only under skip == 0" % v))
+    # positive outcomes act only under skip == 0 (MIR: however the test is spelled -- `if skip.0 == 0 {..}`, a match guard, an
+    # earlier `Found(_) if skip.0 != 0 => {}` arm)
     for v in positives:
+        key = "%s:guard:%s" % (wname, v)
         if v not in seen_pos:
-            obs.append(bad(RULE, "%s:guard:%s" % (wname, v), st, "no arm for outcome %s" % v))
+            obs.append(bad(RULE, key, st, "no arm for outcome %s" % v))
+            continue
+        eff = unguarded_effects(f, corecall, v)
+        if eff is None:
+            obs.append(bad(RULE, key, st, "no edge for outcome %s of %s found in the compiled walker" % (v, corecall)))
+        elif eff:
+            obs.append(bad(RULE, key, st, "the %s outcome acts (%s) where `skip == 0` is not known: a layer masked by objectRemoveKey would be visible" % (v, ", ".join(sorted(set(eff))))))
+        else:
+            obs.append(ok(RULE, key, st, "%s is accepted only under skip == 0" % v))
     # L4: skip -= 1 once per layer, as the last statement of the loop body
     key = "%s:decrement" % wname
     last = None
